@@ -57,6 +57,27 @@ def dfa_events(src):
     if exc == "none":
         ev["res"] = ab.regexp(r)
     yield ev
+    if len(D.Q) <= 3:
+        yield from rip_trace(D, pre, src)
+
+
+def rip_trace(D, pre, src):
+    """the two halves of dfa_to_regexp called separately: the labels after dfa_to_gnfa, every ripped state (hook),
+    the final label - validated by TLC as a behaviour of the GnfaRip model (same step operator RipLabels)"""
+    from gambatools.regexp_algorithms import dfa_to_gnfa, gnfa_minimize
+    from gambatools import _verif
+
+    def run():
+        G = dfa_to_gnfa(D)
+        labels = [[ab.enc(p), ab.enc(q), ab.regexp(t)] for (p, q), t in list(G.delta.items())]
+        _verif.take()
+        gnfa_minimize(G)
+        rips = [ab.enc(t["q"]) for t in _verif.take() if t["ev"] == "rip"]
+        return labels, rips, ab.regexp(G.delta[G.q_start, G.q_accept])
+    out, exc = guarded(run, 30)
+    if exc != "none":
+        return
+    yield {"op": "rip_trace", "fa": pre, "gnfa": out[0], "rips": out[1], "res": out[2], "src": src}
 
 
 def drive(task):
@@ -91,7 +112,9 @@ MODELS = {"quick": [("GnfaRip", "GnfaRip_q.cfg", "all DFA(2,{a,b}) x all elimina
                        ("GnfaRip", "GnfaRip_t.cfg", "all DFA(3,{a}) x all 6 elimination orders"), ("GnfaRip", "GnfaRip_t2.cfg", "all DFA(3,{a,b}) x all 6 elimination orders")]}
 RULE = ("regexp->NFA on all trees with <= 2 (3) operators over {0,1,a,b} and random trees up to 8 operators (alphabets "
         "incl. {0,1}); DFA->regexp on DFA(3,{a,b}) (strided in quick), DFA(2,{a,b,c}), random DFAs up to 5 states, under "
-        "four state-naming schemes and several hash seeds (= elimination orders); equivalence decided exactly; "
+        "four state-naming schemes and several hash seeds (= elimination orders); equivalence decided exactly; for DFAs "
+        "with <= 3 states the labels after dfa_to_gnfa, every ripped state (hook) and the final label are validated "
+        "as a behaviour of GnfaRip.tla (operator RipLabels, exact regexp trees); "
         "non-trivial = more than one operator / DFA with >= 2 states; distinct = distinct input")
 
 
@@ -99,6 +122,14 @@ def nontrivial(e):
     if e["op"] == "re_to_nfa":
         return str(e["re"]).count("[") > 2
     return len(e["fa"]["Q"]) >= 2
+
+
+def _rip_lines(done):
+    for _, path, _ in done:
+        with open(path) as f:
+            for ln in f:
+                if '"rip_trace"' in ln:
+                    yield ln
 
 
 def rip_orders(res, done):
@@ -116,6 +147,7 @@ def rip_orders(res, done):
                     perm = tuple(Q.index(q) for q in e["rip_order"])
                     seen.setdefault(len(Q), {}).setdefault(str(perm), 0)
                     seen[len(Q)][str(perm)] += 1
+    res.notes["rip_traces_validated_against_GnfaRip"] = sum(1 for _ in _rip_lines(done))
     res.notes["elimination_orders_observed"] = {"by_number_of_states": seen,
                                                 "note": "GnfaRip.tla checks ALL orders; the hook reports which ones the hash "
                                                         "seeds and naming schemes of this run produced"}
